@@ -98,7 +98,7 @@ func (s *DefaultMetricSearcher) getOffsetStartAndFileIdx(filenames []string, beg
 	}
 	if cacheOk {
 		for j, v := range filenames {
-			if v != s.cachedPos.metricFilename {
+			if v == s.cachedPos.metricFilename {
 				i = uint32(j)
 				offsetInIdx = s.cachedPos.curOffsetInIdx
 				break
